@@ -51,6 +51,9 @@ type Profile struct {
 	Nested float64
 	// EventDriven: run the convergence phase in E mode (events, requeues and error retries only)
 	EventDriven bool
+	// Widen: extra probability that an edited template tolerates a taint the others do not (its canary can
+	// then sit on nodes the previously active template cannot use)
+	Widen float64
 	// EnvOrder: probability that an edited template carries a two-variable env list in one of its two orders
 	EnvOrder float64
 	// Overrides: weight of node override annotation / ExtendedDaemonsetSetting actions (0 = none exist)
@@ -257,6 +260,11 @@ func (e *Sim) Run(ctx *core.Ctx, idx int) {
 		w.overridesSetup(r, "ns1", "foo")
 	}
 	if e.P.MultiEDS {
+		if r.Intn(3) == 0 {
+			// the pod template of "bar" carries the reserved name label with the value of the OTHER
+			// ExtendedDaemonSet (copied from a dump of one of its pods): the controller's own value must win
+			w.TplLabels = map[string]map[string]string{"ns1/bar": {v1.ExtendedDaemonSetNameLabelKey: "foo", v1.ExtendedDaemonSetReplicaSetNameLabelKey: "foo-copied"}}
+		}
 		switch r.Intn(4) {
 		case 0:
 			mk("ns2", "foo")
@@ -446,7 +454,7 @@ func (e *Sim) actionFrom(w *World, r *rand.Rand, ns, name string, sh shape, edit
 				t = sh.tpl(mk + "-sel")
 				t.Spec.NodeSelector = map[string]string{"zone": "a"}
 			}
-			if r.Intn(8) == 0 { // eligibility-widening variant: tolerates the "dedicated" taint the others do not
+			if r.Float64() < 0.125+p.Widen { // eligibility-widening variant: tolerates the "dedicated" taint the others do not
 				t = sh.tpl(mk + "-tol")
 				t.Spec.Tolerations = append(t.Spec.Tolerations, corev1.Toleration{Key: "dedicated", Operator: corev1.TolerationOpExists, Effect: corev1.TaintEffectNoSchedule})
 			}
